@@ -30,6 +30,8 @@ func main() {
 		cmdCheck(os.Args[2:])
 	case "list":
 		cmdList(os.Args[2:])
+	case "dump":
+		cmdDump(os.Args[2:])
 	case "finalfields":
 		cmdFinal(os.Args[2:])
 	default:
